@@ -253,14 +253,30 @@ class Interp:
                     for h in s.handlers:
                         if _handler_matches(h, ex):
                             if h.name:
-                                self.env[h.name] = getattr(ex, "exc", None) or Exception(str(ex))
-                            self.run(h.body)
+                                if getattr(ex, "exc", None) is None:
+                                    ex.exc = Exception(str(ex))
+                                self.env[h.name] = ex.exc
+                            prev, self._handling = getattr(self, "_handling", None), ex
+                            try:
+                                self.run(h.body)
+                            finally:
+                                self._handling = prev
                             break
                     else:
                         raise
                 else:
                     self.run(s.orelse)
             elif isinstance(s, ast.Raise):
+                cur = getattr(self, "_handling", None)
+                if s.exc is None and cur is not None:  # bare raise inside a handler: the handled exception again
+                    raise cur
+                if isinstance(s.exc, ast.Name) and isinstance(self.env.get(s.exc.id), BaseException):
+                    v = self.env[s.exc.id]
+                    if cur is not None and getattr(cur, "exc", None) is v:
+                        raise cur
+                    rz = _Raised(type(v).__name__ if not isinstance(v, Exception) or type(v) is not Exception else str(v))
+                    rz.exc = v
+                    raise rz
                 raise _Raised(unparse(s.exc)[:80] if s.exc else "raise")
             else:
                 raise AnalysisError(f"tabulation: unsupported statement {type(s).__name__} at line {getattr(s, 'lineno', '?')}")
